@@ -79,6 +79,11 @@ def scenarios():
         SC("rekeep-same-code", [k("/c6/p", "s_text")], k("/c6/p", "s_text"), {("/c6/p", "data"): [E["s_text"]]}, {("/c6/p", "data"): E["s_text"]}),
         SC("cold-first-keep-frame-parquet", [], k("/c6/frame", "s_frame"), {}, {("/c6/frame", "data"): scen.frame_value()}),
         SC("rekeep-changed-code-with-object-cache", [k("/c6/p", "s_text", cache=2)], k("/c6/p", "s_text_v2", cache=2), {("/c6/p", "data"): [E["s_text"]]}, {("/c6/p", "data"): E["s_text_v2"]}),
+        # the evaluated function is itself kept under a path and keeps other paths inside (4 links committed by one evaluation)
+        SC("nested-keep-top-cold", [], k("/shared/dir/top", "n_top"), {},
+           {("/shared/dir/top", "data"): E["n_top"], ("/shared/dir/leaf_a", "data"): E["n_leaf_a"], ("/shared/dir/leaf_b", "data"): E["n_leaf_b"], ("/shared/dir/mid", "data"): E["n_mid"]}),
+        SC("nested-keep-top-leaf-present", [k("/shared/dir/leaf_a", "n_leaf_a")], k("/top2", "n_top"), {("/shared/dir/leaf_a", "data"): [E["n_leaf_a"]]},
+           {("/top2", "data"): E["n_top"], ("/shared/dir/leaf_a", "data"): E["n_leaf_a"], ("/shared/dir/leaf_b", "data"): E["n_leaf_b"], ("/shared/dir/mid", "data"): E["n_mid"]}),
     ]
     return out
 
